@@ -1,7 +1,7 @@
 (* C15 - roman-numeral annotations parse to the right chords at the right times.
    Statements only; proofs in Proofs/RomanProofs.v (the clock, integer ticks, any bar length L > 0, i.e. every
    time signature).  Figures are evaluated against textbook pitch classes by the oracle (DESIGN: narrow Spec). *)
-From ML Require Import Model.Types Model.Roman Proofs.RomanProofs.
+From ML Require Import Model.Types gen.Tables Model.Roman Proofs.RomanProofs Proofs.RomanFigures.
 Open Scope Z_scope.
 
 (* once a chord exists, every further token keeps: the chord in progress lasts to the end of its bar, the earlier
@@ -16,6 +16,17 @@ Theorem C15_total : forall L toks b0 p0, forallb no_sig toks = true -> 0 < L ->
   let s := run_tokens L toks in
   total s = L * (fst (cs_started s) - b0 + 1) - p0 /\ cs_pickup s = p0.
 Proof. exact annotation_total. Qed.
+
+(* figures: for each of the 104 diatonic figures (triads and sevenths of the major key; triads of the minor key incl. V and vii° of
+   the harmonic scale; minor-key sevenths V7, vii°7, iiø7, III7, iv7, VI7, VII7; every inversion) and each of the 12 keys, the chord
+   the parser returns (ROMAN_DIATONIC: regenerated from roman_parser.analyze_one_chord on every run) has, by the pitch model of
+   C01/C02, exactly the pitch classes of the standard reading (stacked thirds of the key's scale) and its bass *)
+Theorem C15_diatonic_figures : forall cs key, In cs figure_cases -> 0 <= key < 12 -> figure_ok cs key = true.
+Proof. exact diatonic_figures. Qed.
+
+Example C15_ex_figure : In (true, "VII43"%string, [10; 2; 5; 8], 2%nat) figure_cases /\
+  roman_lookup true "VII43" 0 ROMAN_DIATONIC = Some (4, "43"%string, 3, MMaj).      (* in c minor: V43 of E flat major, bass F *)
+Proof. split; [vm_compute; tauto|vm_compute; reflexivity]. Qed.
 
 (* a pickup bar numbered 0, three bars of 3/4 (144 ticks), chords on beats: | - - V | I - IV | V7 - - | *)
 Example C15_ex : chord_durations 192 [TSig 144; TBar 0; TBeat 96; TChord; TBar 1; TChord; TBeat 96; TChord; TBar 2; TChord]
